@@ -46,6 +46,15 @@ class RefError(Exception):
     """The reference cannot process the input (malformed per RFC 8613)."""
 
 
+class NonCanonical(RefError):
+    """The option value can be read field by field but is not the encoding RFC 8613 fixes for
+    these field values (`kind` names which rule it breaks); a receiver has nothing to accept here."""
+
+    def __init__(self, kind, text):
+        RefError.__init__(self, text)
+        self.kind = kind
+
+
 # ---- minimal CBOR (RFC 8949 preferred serialisation) for the fixed structures used here -----
 
 
@@ -135,7 +144,16 @@ Opt = namedtuple("Opt", "piv kid_context kid trailing flag")
 
 def parse_option(v, group=False):
     """-> Opt, or raises RefError for what RFC 8613 section 6.1 makes undecodable: reserved flag
-    bits (the three most significant bits), n = 6 or 7, a field running past the end.
+    bits (the three most significant bits), n = 6 or 7, a field running past the end; and
+    NonCanonical (a RefError) for a value that is not *the* encoding of its fields:
+    * section 6.1: "If the OSCORE flag bits are all zero (0x00), the option value SHALL be empty
+      (Option Length = 0)" - a non-empty value that starts with 0x00 ("zero-flag-byte");
+    * section 5 ('Partial IV'): "All leading bytes of value zero SHALL be removed when encoding the
+      Partial IV, except in the case of the value 0, which is encoded to the byte string 0x00" - a
+      Partial IV of more than one byte that starts with 0x00 ("piv-leading-zero-bytes");
+    * section 6.1 lays the value out as flag byte, n bytes of Partial IV, s and kid context (if h),
+      and "the remaining bytes encode the value of the kid, if the kid is present (k = 1)": with
+      k = 0 there is no field left that further bytes could belong to ("trailing-bytes-without-kid-flag").
     group=True: the sixth least significant bit is the Group Flag of Group OSCORE (section 4.1 of
     the draft) and only the two most significant bits are reserved; it is reported in Opt.flag."""
     v = bytes(v)
@@ -144,6 +162,8 @@ def parse_option(v, group=False):
     f = v[0]
     if f & (0xC0 if group else 0xE0):
         raise RefError("reserved flag bits set")
+    if f == 0:
+        raise NonCanonical("zero-flag-byte", "all flag bits zero in a non-empty option value")
     n, k, h = f & 7, (f >> 3) & 1, (f >> 4) & 1
     if n > 5:
         raise RefError("n = 6 and 7 are reserved")
@@ -164,13 +184,14 @@ def parse_option(v, group=False):
             raise RefError("kid context truncated")
         kc = v[pos : pos + s]
         pos += s
+    if piv is not None and len(piv) > 1 and piv[0] == 0:
+        raise NonCanonical("piv-leading-zero-bytes", "Partial IV encoded with leading zero bytes")
     kid = None
-    trailing = b""
     if k:
         kid = v[pos:]
-    else:
-        trailing = v[pos:]
-    return Opt(piv, kc, kid, trailing, f)
+    elif v[pos:]:
+        raise NonCanonical("trailing-bytes-without-kid-flag", "bytes after the last announced field although k = 0")
+    return Opt(piv, kc, kid, b"", f)
 
 
 def build_option(piv=None, kid_context=None, kid=None, flag_or=0, n=None):
@@ -271,9 +292,20 @@ def selftest():
     for bad in ("20", "40", "80", "0600", "07", "01", "10", "1003aa", "1905"):
         try:
             parse_option(h(bad))
+        except NonCanonical:
+            raise AssertionError("malformed option taken as merely non-canonical " + bad)
         except RefError:
             continue
         raise AssertionError("accepted malformed option " + bad)
+    for bad, kind in (("00", "zero-flag-byte"), ("00aabb", "zero-flag-byte"), ("020005", "piv-leading-zero-bytes"), ("050000000005", "piv-leading-zero-bytes"),
+                      ("0a000525", "piv-leading-zero-bytes"), ("0105aa", "trailing-bytes-without-kid-flag"), ("110501aa00", "trailing-bytes-without-kid-flag"), ("1000aa", "trailing-bytes-without-kid-flag")):
+        try:
+            parse_option(h(bad))
+        except NonCanonical as e:
+            assert e.kind == kind, (bad, e.kind)
+            continue
+        raise AssertionError("accepted non-canonical option " + bad)
+    assert parse_option(h("0100")) == Opt(b"\0", None, None, b"", 1) and parse_option(h("020100")).piv == b"\x01\0" and parse_option(h("08")).kid == b""
     assert build_option(b"\x05", b"Dalek", b"\x25") == h("19050544616c656b25")
     assert build_option() == b""
     return True
